@@ -5,7 +5,7 @@ from common import from_replay, to_replay  # noqa: F401
 
 PID = "C03"
 COQ_MODULE = "Prop_C03"
-THEOREMS = ['C03_every_history', 'C03_guard_drop_releases_all', 'C03_unlock_step', 'C03_scoped_restores', 'C03_no_self_wait', "C03_every_schedule_waits_with_own_locks_only"]
+THEOREMS = ['C03_every_history', 'C03_guard_drop_releases_all', 'C03_unlock_step', 'C03_scoped_restores', 'C03_no_self_wait', "C03_every_schedule_waits_with_own_locks_only", "C03_every_schedule_key_back_holds_nothing"]
 CASE_MODULES = ["Pf_Hist", "Monitors", "Conc", "BMonitors"]
 CHECK_WITHOUT_PROOF = True
 TRUSTED = common.TRUSTED_COMMON
